@@ -1,8 +1,8 @@
 (* C17 proofs, part 4: the hand-written two-table join path of Database::query (Model/JoinHw.v, the
    repaired code) returns exactly the rows SQL defines, for every pair of tables, join type, ON
-   condition, WHERE clause and select list (SELECT * included) outside the one open finding class 3
-   (bare names + an equality between two columns of the same input), provided the predicate
-   evaluator agrees with the reference on the rows it is applied to (property C14). *)
+   condition, WHERE clause and select list (SELECT * included), with bare or table-qualified column
+   names -- no finding class is left for two-table joins -- provided the predicate evaluator agrees
+   with the reference on the rows it is applied to (property C14). *)
 From Coq Require Import ZArith List Bool Lia.
 From TV Require Import Model.SqlSpec Model.PredImpl Model.JoinSpec Model.JoinExec Model.JoinHw
                        Proof.SqlSpecLaws Proof.JoinBag Proof.JoinKeys.
@@ -73,26 +73,36 @@ Proof.
     destruct (nth_error l j); [|reflexivity]. apply bind_ret_tv.
 Qed.
 
-(* the hash path never accepts a pair whose ON condition is not TRUE *)
-Lemma hw_keys_sound lw e (l r : row) :
-  length l = lw ->
-  forallb (is_cross_key lw) (conjuncts e) = true ->
-  sem3 e (l ++ r) <> None ->
-  hw_key_match (cross_keys lw (equi_keys e)) l r = true ->
-  passes e (l ++ r) = true.
+(* a `column = column` conjunct on the joined row *)
+Lemma sem3_same (row : row) i j :
+  sem3 (ECmp CEq (ECol i) (ECol j)) row =
+  match nth_error row i, nth_error row j with Some x, Some y => cmp3 CEq x y | _, _ => None end.
 Proof.
-  intros Hl Hall D Hm. rewrite (conj_passes e _ D). apply forallb_forall. intros c Hc.
-  pose proof (conj_defined e _ D) as DF. rewrite Forall_forall in DF. specialize (DF c Hc).
-  rewrite forallb_forall in Hall. specialize (Hall c Hc).
-  unfold is_cross_key in Hall. destruct (key_of c) as [[i j]|] eqn:K; [|discriminate].
+  unfold sem3. cbn [eval]. destruct (nth_error row i); [|reflexivity]. destruct (nth_error row j); [|reflexivity].
+  apply bind_ret_tv.
+Qed.
+
+Lemma key_shape c k : key_of c = Some k -> c = ECmp CEq (ECol (fst k)) (ECol (snd k)).
+Proof.
   destruct c; try discriminate. destruct op; try discriminate. destruct c1; try discriminate. destruct c2; try discriminate.
-  cbn [key_of] in K. inversion K; subst i0 i1. clear K.
-  destruct (cross_key lw (i, j)) as [|[li ri] [|? ?]] eqn:CK; try discriminate.
-  2:{ unfold cross_key in CK. destruct ((i <? lw)%nat && negb (j <? lw)%nat); [discriminate|]. destruct ((j <? lw)%nat && negb (i <? lw)%nat); discriminate. }
-  (* (li, ri) is one of the keys the hash path checks *)
-  assert (In (li, ri) (cross_keys lw (equi_keys e))) as Hin.
-  { unfold cross_keys. apply in_flat_map. exists (i, j). split; [|rewrite CK; left; reflexivity].
-    unfold equi_keys. apply in_flat_map. exists (ECmp CEq (ECol i) (ECol j)). split; [exact Hc|left; reflexivity]. }
+  cbn. intros H. inversion H. reflexivity.
+Qed.
+
+Lemma cross_key_cases lw k : cross_key lw k = [] \/ exists li ri, cross_key lw k = [(li, ri)].
+Proof.
+  destruct k as [i j]. unfold cross_key.
+  destruct ((i <? lw)%nat && negb (j <? lw)%nat); [right; eauto|].
+  destruct ((j <? lw)%nat && negb (i <? lw)%nat); [right; eauto|left; reflexivity].
+Qed.
+
+(* the hash path never accepts a pair on which a left-right key conjunct is not TRUE *)
+Lemma cross_conj_sound lw ks (l r : row) i j li ri :
+  length l = lw -> cross_key lw (i, j) = [(li, ri)] -> In (li, ri) ks ->
+  hw_key_match ks l r = true ->
+  sem3 (ECmp CEq (ECol i) (ECol j)) (l ++ r) <> None ->
+  passes (ECmp CEq (ECol i) (ECol j)) (l ++ r) = true.
+Proof.
+  intros Hl CK Hin Hm DF.
   unfold hw_key_match in Hm. apply andb_true_iff in Hm. destruct Hm as [_ Hm].
   rewrite forallb_forall in Hm. specialize (Hm _ Hin). cbn [fst snd] in Hm.
   destruct (sem3_cross lw l r i j li ri Hl CK) as [a [b [Ha [Hb Hs]]]]. rewrite Ha, Hb in Hm.
@@ -171,13 +181,12 @@ Proof. unfold kmatch. intros H. apply andb_true_iff in H. destruct H as [_ H]. d
 
 Lemma hw_keys_complete lw e (l r : row) :
   length l = lw ->
-  forallb (is_cross_key lw) (conjuncts e) = true ->
   passes e (l ++ r) = true ->
   hw_key_match (cross_keys lw (equi_keys e)) l r = true.
 Proof.
-  intros Hl Hall P.
+  intros Hl P.
   assert (sem3 e (l ++ r) <> None) as D by (unfold passes in P; destruct (sem3 e (l ++ r)); [discriminate|discriminate P]).
-  rewrite (conj_passes e _ D) in P. rewrite forallb_forall in P. rewrite forallb_forall in Hall.
+  rewrite (conj_passes e _ D) in P. rewrite forallb_forall in P.
   (* every key the hash path looks at holds two matching values *)
   assert (forall k, In k (cross_keys lw (equi_keys e)) ->
             exists a b, nth_error l (fst k) = Some a /\ nth_error r (snd k) = Some b /\ kmatch a b = true) as K.
@@ -214,41 +223,62 @@ Proof. intros H Hin. unfold ev. rewrite (H r Hin). reflexivity. Qed.
 Lemma in_pairs L R (l r : row) : In l L -> In r R -> In (l ++ r) (pairs_of L R).
 Proof. intros Hl Hr. unfold pairs_of. apply in_flat_map. exists l. split; [exact Hl|]. apply in_map. exact Hr. Qed.
 
-Lemma pure_cross_nonempty lw e : pure_equi e = true -> forallb (is_cross_key lw) (conjuncts e) = true ->
-  is_nil (cross_keys lw (equi_keys e)) = false.
+(* the whole test of the hash plan (hash keys + same-side equalities) = the ON condition *)
+Lemma hw_hash_cond lw e (l r : row) :
+  length l = lw -> pure_equi e = true -> sem3 e (l ++ r) <> None ->
+  (if is_nil (cross_keys lw (equi_keys e)) then true else hw_key_match (cross_keys lw (equi_keys e)) l r)
+  && same_side_match (same_keys lw (equi_keys e)) (l ++ r) = passes e (l ++ r).
 Proof.
-  intros _ Hall. assert (conjuncts e <> []) as NE by (destruct e; cbn; try discriminate; intros X; apply app_eq_nil in X; destruct X as [X _]; revert X; clear; induction e1; cbn; try discriminate; intros X; apply app_eq_nil in X; destruct X; auto).
-  destruct (conjuncts e) as [|c cs] eqn:Ec; [congruence|].
-  cbn [forallb] in Hall. apply andb_true_iff in Hall. destruct Hall as [Hc _].
-  unfold is_cross_key in Hc. destruct (key_of c) as [k|] eqn:K; [|discriminate].
-  unfold equi_keys. rewrite Ec. cbn [flat_map]. rewrite K. unfold cross_keys. cbn [app flat_map].
-  destruct (cross_key lw k); [discriminate|reflexivity].
+  intros Hl Hp D. set (ks := cross_keys lw (equi_keys e)). set (ss := same_keys lw (equi_keys e)).
+  destruct (passes e (l ++ r)) eqn:P.
+  - apply andb_true_iff. split.
+    + destruct (is_nil ks); [reflexivity|]. apply (hw_keys_complete lw e l r Hl P).
+    + unfold same_side_match. apply forallb_forall. intros k Hk. unfold ss, same_keys in Hk. apply filter_In in Hk. destruct Hk as [Hk _].
+      unfold equi_keys in Hk. apply in_flat_map in Hk. destruct Hk as [c [Hc Hk]].
+      destruct (key_of c) as [k0|] eqn:Kc; [|destruct Hk]. destruct Hk as [Hk|[]]. subst k0.
+      rewrite (conj_passes e _ D) in P. rewrite forallb_forall in P. specialize (P c Hc).
+      rewrite (key_shape c k Kc) in P. unfold passes in P. rewrite sem3_same in P.
+      destruct (nth_error (l ++ r) (fst k)) as [x|]; [|discriminate]. destruct (nth_error (l ++ r) (snd k)) as [y|]; [|discriminate].
+      destruct (cmp3 CEq x y) as [[]|] eqn:E; try discriminate.
+      destruct (cmp3_tt_kmatch x y E) as [M _]. unfold kmatch in M. apply andb_true_iff in M. apply M.
+  - destruct ((if is_nil ks then true else hw_key_match ks l r) && same_side_match ss (l ++ r)) eqn:I; [|reflexivity].
+    exfalso. apply andb_true_iff in I. destruct I as [I1 I2].
+    assert (passes e (l ++ r) = true) as X; [|congruence].
+    rewrite (conj_passes e _ D). apply forallb_forall. intros c Hc.
+    pose proof (conj_defined e _ D) as DF. rewrite Forall_forall in DF. specialize (DF c Hc).
+    unfold pure_equi in Hp. rewrite forallb_forall in Hp. specialize (Hp c Hc). unfold is_key in Hp.
+    destruct (key_of c) as [[i j]|] eqn:Kc; [|discriminate]. pose proof (key_shape c (i, j) Kc) as Sc. cbn [fst snd] in Sc. subst c.
+    assert (In (i, j) (equi_keys e)) as Hij.
+    { unfold equi_keys. apply in_flat_map. exists (ECmp CEq (ECol i) (ECol j)). split; [exact Hc|left; reflexivity]. }
+    destruct (cross_key_cases lw (i, j)) as [CK|[li [ri CK]]].
+    + (* same side *)
+      assert (In (i, j) ss) as Hs by (unfold ss, same_keys; apply filter_In; split; [exact Hij|rewrite CK; reflexivity]).
+      unfold same_side_match in I2. rewrite forallb_forall in I2. specialize (I2 _ Hs). cbn [fst snd] in I2.
+      unfold passes. rewrite sem3_same in *.
+      destruct (nth_error (l ++ r) i) as [x|]; [|discriminate]. destruct (nth_error (l ++ r) j) as [y|]; [|discriminate].
+      destruct (equal_coerce_sql x y I2) as [E1 _]. rewrite (E1 DF). reflexivity.
+    + assert (In (li, ri) ks) as Hin.
+      { unfold ks, cross_keys. apply in_flat_map. exists (i, j). split; [exact Hij|rewrite CK; left; reflexivity]. }
+      destruct (is_nil ks) eqn:N; [destruct ks; [destruct Hin|discriminate]|].
+      apply (cross_conj_sound lw ks l r i j li ri Hl CK Hin I1 DF).
 Qed.
 
 Lemma hw_cond_is_on lw qual on (L R : table) (l r : row) :
   Forall (fun l => length l = lw) L ->
-  same_side_on lw qual on = false ->
   (forall e, on = Some e -> pred_ok e (pairs_of L R)) ->
   pair_defined on L R = true ->
   In l L -> In r R ->
   hw_cond lw qual on l r = pair_tt on l r.
 Proof.
-  intros HW Hss Hev Hdef Hl Hr. destruct on as [e|]; [|reflexivity].
+  intros HW Hev Hdef Hl Hr. destruct on as [e|]; [|reflexivity].
   cbn [hw_cond pair_tt]. unfold on_tt.
   assert (sem3 e (l ++ r) <> None) as D.
   { cbn [pair_defined] in Hdef. unfold on_defined in Hdef. rewrite forallb_forall in Hdef. specialize (Hdef l Hl).
     rewrite forallb_forall in Hdef. specialize (Hdef r Hr). unfold on3 in Hdef. destruct (sem3 e (l ++ r)); [discriminate|discriminate Hdef]. }
   assert (length l = lw) as Hlen by (rewrite Forall_forall in HW; apply HW; exact Hl).
   destruct (hash_plan lw qual e) eqn:HP.
-  - unfold hash_plan in HP. apply andb_true_iff in HP. destruct HP as [Hp Hq].
-    assert (forallb (is_cross_key lw) (conjuncts e) = true) as Hall.
-    { cbn [same_side_on] in Hss. rewrite Hp in Hss. destruct qual; cbn [negb andb orb] in *; [exact Hq|].
-      apply negb_false_iff in Hss. exact Hss. }
-    rewrite (pure_cross_nonempty lw e Hp Hall).
-    destruct (passes e (l ++ r)) eqn:P.
-    + apply (hw_keys_complete lw e l r); auto.
-    + destruct (hw_key_match (cross_keys lw (equi_keys e)) l r) eqn:M; [|reflexivity].
-      rewrite (hw_keys_sound lw e l r Hlen Hall D M) in P. discriminate.
+  - unfold hash_plan in HP. apply andb_true_iff in HP. destruct HP as [Hp _].
+    apply (hw_hash_cond lw e l r Hlen Hp D).
   - apply ev_ok with (rows := pairs_of L R); [apply Hev; reflexivity|apply in_pairs; assumption].
 Qed.
 
@@ -270,7 +300,6 @@ Qed.
 Theorem hw2_correct_l :
   forall jt lw rw qual on w sel (L R : table) t s,
   let q := mkq [(lw, L); (rw, R)] [(jt, on)] w sel in
-  cls_sql q qual = 0 ->
   Forall (fun l => length l = lw) L ->
   (forall e, opt_on jt on = Some e -> pred_ok e (pairs_of L R)) ->
   (forall e, w = Some e -> pred_ok e (join_rows jt lw rw (pair_tt (opt_on jt on)) L R)) ->
@@ -278,11 +307,9 @@ Theorem hw2_correct_l :
   query_spec q = Some s ->
   t = s.
 Proof.
-  intros jt lw rw qual on w sel L R t s q Hc HW Hon Hw Hm Hs.
+  intros jt lw rw qual on w sel L R t s q HW Hon Hw Hm Hs.
   unfold hw_model, q in Hm. cbn [q_tabs q_joins q_sel q_where] in Hm.
-  unfold cls_sql, q in Hc. cbn [q_tabs q_joins] in Hc.
   set (on' := opt_on jt on) in *.
-  destruct (same_side_on lw qual on') eqn:Hss; [discriminate|]. clear Hc.
   unfold query_spec, q in Hs. cbn [q_tabs q_joins q_sel q_where from_spec] in Hs. fold on' in Hs.
   destruct (pair_defined on' L R) eqn:Hdef; [|discriminate].
   unfold hw2 in Hm. fold on' in Hm.
